@@ -30,6 +30,12 @@ verus! {
 //@ end
 //@ extract current.rs enum CurrentFileStatesError
 //@ end
+//@ extract cache.rs struct SysCache
+//@ end
+//@ extract directory.rs enum InitDirectoryError
+//@ end
+//@ extract directory.rs struct Elements
+//@ end
 
 //@ include prelude/system_state.rs
 
@@ -140,6 +146,7 @@ impl<SystemType : System> CurrentFileStates<SystemType> {
             state_ok(*final(w)),                                                                     //# O-H-state-ok-to-file [C11]
             only_changed(*old(w), *final(w), old(self).path@, old(self).path@ + tmp_suffix()),       //# O-H-to-file-frame [C11,C09]
             res is Ok ==> final(w).files.contains_key(old(self).path@) && decode_c(final(w).files[old(self).path@].content) == old(self).inside,   //# O-H-table-written [C11]
+            res matches Err(e) ==> e is CannotRecordHistoryFile,
 //@ end
 
 //@ extract current.rs impl /CurrentFileStates<SystemType>$/ fn from_inside
@@ -161,6 +168,34 @@ impl<SystemType : System> CurrentFileStates<SystemType> {
             // a damaged table is rejected, never misread                                             //# O-H-reject-table [C11]
             res matches Ok(c) ==> old(w).files.contains_key(current_file_statesfile_path@)
                 && decodes_c(old(w).files[current_file_statesfile_path@].content) && c.inside == decode_c(old(w).files[current_file_statesfile_path@].content),
+            res matches Ok(c) ==> c.path@ == current_file_statesfile_path@,
+            // STATE_OK on disk means the table is accepted whenever it can be opened and read                       //# O-H-accept-table [C11]
+            (old(w).files.contains_key(current_file_statesfile_path@) && decodes_c(old(w).files[current_file_statesfile_path@].content)) ==> !(res matches Err(CurrentFileStatesError::CannotInterpretFile(_))),
+//@ end
+
+//@ extract current.rs impl /CurrentFileStates<SystemType>$/ fn new
+//@ props C11
+//@ ret res
+//@ rewrite 1 /HashMap::new\(\)/ => HashMap::<String, FileState>::new()
+//@ spec
+        ensures res.path@ == path@, res.inside.file_states@ == Map::<String, FileState>::empty(),
+//@ end
+
+//@ extract current.rs impl /CurrentFileStates<SystemType>$/ fn from_file
+//@ props C11 C09
+//@ ret res
+//@ param Tracked(w): Tracked<&mut World>
+//@ addarg * /system\.is_file|Self::read_all_current_file_states_from_file|current_file_states\.to_file/ Tracked(w)
+//@ spec
+        requires state_kind(path@) == 2, state_ok(*old(w)),
+        ensures state_ok(*final(w)),                                                                   //# O-H-from-file-state-ok [C11]
+            only_changed(*old(w), *final(w), path@, path@ + tmp_suffix()),                             //# O-H-from-file-frame [C11,C09]
+            // a table file that is there is only read; a state that is STATE_OK is never rejected: an existing table decodes     //# O-H-table-not-fatal [C11]
+            old(w).files.contains_key(path@) ==> *final(w) == *old(w),
+            !(res matches Err(CurrentFileStatesError::CannotInterpretFile(_))),
+            res matches Ok(c) ==> c.path@ == path@ && c.wf(),
+            res matches Ok(c) ==> (old(w).files.contains_key(path@) ==> c.inside == decode_c(old(w).files[path@].content)),
+            res matches Ok(c) ==> (!old(w).files.contains_key(path@) ==> c.inside.file_states@ == Map::<String, FileState>::empty()),
 //@ end
 
 // ---------- the in-memory table: handing a rule's entries out and taking them back ----------
@@ -203,6 +238,61 @@ impl FileState {
         // the entry handed out is the remembered one, or the empty state                                              //# O-H-take-entry [C18]
         old(this).inside.file_states@.contains_key(skey(path@)) ==> res == old(this).inside.file_states@[skey(path@)],
         !old(this).inside.file_states@.contains_key(skey(path@)) ==> res.timestamp == 0 && !res.executable,
+//@ end
+
+// ---------- directory.rs: what every invocation does first ----------
+struct History2 { x: u8 }
+#[verifier::external_body] fn fmt_cache(d: &str) -> (r: String) ensures r@ == d@ + "/cache"@ { format!("{}/cache", d) }
+#[verifier::external_body] fn fmt_history(d: &str) -> (r: String) ensures r@ == d@ + "/history"@ { format!("{}/history", d) }
+#[verifier::external_body] fn fmt_table(d: &str) -> (r: String) ensures r@ == d@ + "/current_file_states"@ { format!("{}/current_file_states", d) }
+// ASSUMED (names): "<dir>/current_file_states" is the file-state table
+#[verifier::external_body] proof fn table_name_kind(d: Seq<char>) ensures state_kind(d + "/current_file_states"@) == 2 {}
+#[verifier::external_body] fn str_to_string(s: &str) -> (r: String) ensures r@ == s@ { s.to_string() }
+impl<SystemType : System> SysCache<SystemType> {
+//@ extract cache.rs impl /SysCache<SystemType>$/ fn new
+//@ props C11 C09
+//@ ret res
+//@ rewrite 1 /path\.to_string\(\)/ => str_to_string(path)
+//@ spec
+        ensures res.path@ == path@,
+//@ end
+}
+impl<SystemType : System> History<SystemType> {
+//@ extract history.rs impl /History<SystemType>$/ fn new
+//@ props C11 C09
+//@ ret res
+//@ rewrite 1 /path\.to_string\(\)/ => str_to_string(path)
+//@ spec
+        ensures res.path@ == path@,
+//@ end
+}
+// the three directories of ruler's own state
+spec fn own_dirs(d: Seq<char>) -> Set<Seq<char>> { set![d, d + "/cache"@, d + "/history"@] }
+
+//@ extract directory.rs fn init
+//@ props C11 C09 C05
+//@ ret res
+//@ param Tracked(w): Tracked<&mut World>
+//@ addarg * /system\.(is_dir|create_dir)|CurrentFileStates::from_file/ Tracked(w)
+//@ rewrite 1 /format!\("\{\}\/cache", directory\)/ => fmt_cache(directory)
+//@ rewrite 1 /format!\("\{\}\/history", directory\)/ => fmt_history(directory)
+//@ rewrite 1 /format!\("\{\}\/current_file_states", directory\)/ => fmt_table(directory)
+//@ spec
+    requires state_ok(*old(w)),
+    ensures
+        state_ok(*final(w)),                                                                            //# O-H-init-state-ok [C11]
+        // only ruler's own directory is touched: no directory but the three of its own appears, no file but the table (and its
+        // temporary) changes -- and an existing table is only read                                                             //# O-H-init-frame [C09,C11]
+        same_consts(*old(w), *final(w)), final(w).execs == old(w).execs,
+        old(w).dirs.subset_of(final(w).dirs), final(w).dirs.subset_of(old(w).dirs.union(own_dirs(directory@))),
+        forall|x: Seq<char>| #![trigger final(w).files[x]] #![trigger final(w).files.contains_key(x)] x != directory@ + "/current_file_states"@ && x != directory@ + "/current_file_states"@ + tmp_suffix() ==>
+            (old(w).files.contains_key(x) == final(w).files.contains_key(x) && (old(w).files.contains_key(x) ==> old(w).files[x] == final(w).files[x])),
+        // the state left by a kill is never fatal: whenever the table on disk decodes (STATE_OK), it is accepted                    //# O-H-init-not-fatal [C11]
+        !(res matches Err(InitDirectoryError::FailedToReadCurrentFileStates(CurrentFileStatesError::CannotInterpretFile(_)))),
+        res matches Ok(e) ==> e.cache.path@ == directory@ + "/cache"@ && e.history.path@ == directory@ + "/history"@ && e.current_file_states.path@ == directory@ + "/current_file_states"@,
+        res matches Ok(e) ==> (old(w).files.contains_key(directory@ + "/current_file_states"@) ==> e.current_file_states.inside == decode_c(old(w).files[directory@ + "/current_file_states"@].content)),
+//@ hint start
+    proof { table_name_kind(directory@); }
 //@ end
 } // verus!
 fn main() {}
